@@ -76,7 +76,38 @@ fn main() {
                 let _ = std::fs::remove_file(&journal);
                 std::process::exit(c)
             }
-            None => recover(format!("the checker process was killed by a signal ({:?})", status)),
+            None => {
+                // Killed by a signal. SIGABRT / SIGSEGV / SIGBUS / SIGILL / SIGFPE in a check run: the subject brought the
+                // process down (an abort from a violated unsafe precondition, a stack overflow, ...) while the check was
+                // exercising the property's operations. First report what had been journalled; when nothing of that is
+                // reportable, run the check a second time: a death that repeats is reported as a violation of its own
+                // (the check never dies on a tree where it used to complete - it is deterministic), a death that does
+                // not repeat ends as a machinery error as before.
+                use std::os::unix::process::ExitStatusExt;
+                let sig = status.signal().unwrap_or(0);
+                let crash = is_check && [4, 6, 7, 8, 11].contains(&sig);
+                if !crash {
+                    recover(format!("the checker process was killed by a signal ({:?})", status));
+                }
+                let have = std::fs::metadata(&journal).map(|m| m.len() > 0).unwrap_or(false);
+                if have {
+                    eprintln!("note: the checker process was killed by signal {}", sig);
+                    let st = std::process::Command::new(&exe).args(["journal", &args[2], &journal]).env("PGMC_CHILD", "1").status();
+                    let _ = std::fs::remove_file(&journal);
+                    if st.ok().and_then(|s| s.code()) == Some(1) {
+                        std::process::exit(1);
+                    }
+                }
+                eprintln!("note: the checker process was killed by signal {}; running the check a second time to see whether that repeats", sig);
+                let st2 = std::process::Command::new(&exe).args(&args[1..]).env("PGMC_CHILD", "1").stdout(std::process::Stdio::null()).stderr(std::process::Stdio::null()).status();
+                match st2 {
+                    Ok(s2) if s2.signal() == Some(sig) => std::process::exit(fw::report_process_killed(&args[2], sig, thorough)),
+                    other => {
+                        eprintln!("MACHINERY-ERROR: the checker process was killed by signal {} once, the second run ended with {:?}; no verdict", sig, other);
+                        std::process::exit(2);
+                    }
+                }
+            }
         }
     }
     fw::install_panic_hook();
